@@ -282,4 +282,17 @@ Definition fwd_actuation (actuation_off : bool) (mask : Z) (h : T) (nout nv : na
     let f := actuator_forces mask h nout tendons c len vel acts_act in
     (act_dots c acts_act, f, qfrc_actuator nv moment f dofs).
 
+(* ---- mj_advance for the activations (Euler integrator): every activation variable goes through
+        mj_nextActivation, with act_dot replaced by 0 for an actuator of a disabled group; with
+        mjDSBL_ACTUATION the activations are not advanced at all.  One entry per actuator (0 for
+        stateless actuators). *)
+Definition advance1 (actuation_off : bool) (mask : Z) (h : T) (x : Actuator * T) (adot : T) : T :=
+  let '(a, act) := x in
+  if (a_actnum a =? 1)%Z
+  then (if actuation_off then act
+        else nextActivation a h act (if actuatorDisabled mask (a_group a) then nzero else adot))
+  else nzero.
+Definition advance_acts (actuation_off : bool) (mask : Z) (h : T) (acts_act : list (Actuator * T)) (dots : list T) : list T :=
+  map (fun xd => advance1 actuation_off mask h (fst xd) (snd xd)) (combine acts_act dots).
+
 End Act.
